@@ -1,5 +1,7 @@
 package main
 
+import "strings"
+
 // Mirror of /verif/harness/zz_verif_gentables.go: which generated tables exist
 // and which of them use Curly-only forms / only the common fragment.
 
@@ -70,6 +72,86 @@ func genSample(seed, k int, keep func(genInfo) bool) []genInfo {
 	}
 	var out []genInfo
 	x := uint64(seed)*2654435761 + 12345
+	seen := map[int]bool{}
+	for len(out) < k {
+		x = x*6364136223846793005 + 1442695040888963407
+		i := int((x >> 33) % uint64(len(pool)))
+		if !seen[i] {
+			seen[i] = true
+			out = append(out, pool[i])
+		}
+	}
+	return out
+}
+
+// ---------------------------------------------------------------- generated root-path tables (>= 3000)
+
+var genRoots = []string{"/a", "/a/b", "/{v}", "/{v:[0-9]+}", "/{v}.x", "/p{v}", "/a/{v}", "/{v}/b", "/a/{v}.x", "/{v:[0-9]*}", "/", "/a/{v:[0-9]+}"}
+
+type genRootInfo struct {
+	idx       int  // configuration number
+	curly     bool // a root uses a Curly-only form (literal prefix/suffix around a variable)
+	literal   bool // literal roots only
+	sameShape bool // two different roots with the same sequence of literal/variable positions
+	nullable  bool // a root has a regex variable that admits the empty string (unspecified zone of RouterJSR311)
+	single    bool
+}
+
+func rootShape(r string) string {
+	out := ""
+	seg := ""
+	flush := func() {
+		if seg == "" {
+			return
+		}
+		if strings.Contains(seg, "{") {
+			out += "v"
+		} else {
+			out += "l"
+		}
+		seg = ""
+	}
+	for i := 0; i < len(r); i++ {
+		if r[i] == '/' {
+			flush()
+			continue
+		}
+		seg += string(r[i])
+	}
+	flush()
+	return out
+}
+
+func genRootTables() []genRootInfo {
+	var out []genRootInfo
+	n := len(genRoots)
+	g := 0
+	isCurly := func(r string) bool { return strings.Contains(r, "}.") || strings.Contains(r, "p{") }
+	for i := 0; i < n; i++ {
+		for j := i; j < n; j++ {
+			out = append(out, genRootInfo{idx: 3000 + g, curly: isCurly(genRoots[i]) || isCurly(genRoots[j]),
+				literal:   !strings.Contains(genRoots[i], "{") && !strings.Contains(genRoots[j], "{"),
+				sameShape: i != j && rootShape(genRoots[i]) == rootShape(genRoots[j]), single: i == j,
+				nullable: strings.Contains(genRoots[i], "]*}") || strings.Contains(genRoots[j], "]*}")})
+			g++
+		}
+	}
+	return out
+}
+
+// genRootSample: all root tables in thorough, k by seed in quick.
+func genRootSample(tier string, seed, k int, keep func(genRootInfo) bool) []genRootInfo {
+	var pool []genRootInfo
+	for _, g := range genRootTables() {
+		if keep(g) {
+			pool = append(pool, g)
+		}
+	}
+	if tier == "thorough" || k >= len(pool) {
+		return pool
+	}
+	var out []genRootInfo
+	x := uint64(seed)*2654435761 + 777
 	seen := map[int]bool{}
 	for len(out) < k {
 		x = x*6364136223846793005 + 1442695040888963407
